@@ -1,4 +1,4 @@
 SPECIFICATION GenSpec
-CONSTANTS G = 4  MaxV = 4  XLeft = 0  YDown = 0  UseMin = FALSE  MaxHits = 99  Margin = "range"  BothOrders = TRUE
+CONSTANTS G = 4  MaxV = 4  XLeft = 0  YDown = 0  UseMin = FALSE  MaxHits = 99  Algo = "edges"  BothOrders = TRUE
 CHECK_DEADLOCK FALSE
 INVARIANT EmitCase
